@@ -193,6 +193,9 @@ class Resolver(object):
                 return ([], "ext")
             r = self.resolve_callee_expr(fi, func)
             if r is None:
+                import builtins
+                if hasattr(builtins, func.id):
+                    return ([], "ext")
                 return ([], "unknown")
             if r[0] == "func":
                 return ([r[1]], "resolved")
